@@ -596,10 +596,10 @@ pub fn run(ctx: &Ctx) -> i32 {
     let dir = ctx.scratch_dir("c13");
     // SQLite temp files (if any were ever spilled) would land in SQLITE_TMPDIR: not settable per
     // connection, so the per-history tmp dir is only scanned; temp_store is checked through H3
-    let n_hist = ctx.budget(48, 1500) as u64;
+    let n_hist = ctx.budget(200, 3000) as u64;
     let n_ctl = ctx.budget(6, 40) as u64;
     let n_mx = ctx.budget(4, 60) as u64;
-    let n_co = ctx.budget(60, 2000) as u64;
+    let n_co = ctx.budget(200, 4000) as u64;
     let total = n_hist + n_ctl + n_mx + n_co;
     let out = crate::par::run(ctx, total, std::time::Duration::from_secs(ctx.tier.pick(100, 1500)), |i, rng, out| {
         if i < n_hist {
